@@ -37,6 +37,7 @@ var fillers = []string{"none", "empty-map", "map", "empty-slice", "slice", "time
 func (c04) Cases(tier string, seed int64, kf *KnownFindings) []Case {
 	var cs []Case
 	add := func(c Case) { c.Sub = -1; cs = append(cs, c) }
+	add(Case{Kind: "chain", Count: 6})
 	for fi := range fillers {
 		add(Case{Kind: "exh", N: 1, K: fi, A: 0, B: 4})
 		add(Case{Kind: "exh", N: 2, K: fi, A: 0, B: 81})
@@ -174,6 +175,10 @@ func graphCheck(env *Env, res *Result, c Case, sub int, val interface{}, feats [
 		return
 	}
 	want := safeDenote(val, nm)
+	if want == nil {
+		res.Inconclusive = append(res.Inconclusive, "harness could not denote the graph")
+		return
+	}
 	// wire side: refs resolve to the intended nodes
 	got, p, err := hspec.Parse(wire)
 	if err != nil {
@@ -225,7 +230,7 @@ func graphCheck(env *Env, res *Result, c Case, sub int, val interface{}, feats [
 		default:
 			if d := zoo.Equiv(val, dec2, zoo.EquivOpts{}); d != "" {
 				viol("refenc:mismatch", fmt.Sprintf("%s; reference rendering %s", d, hexClip(rb)))
-			} else if d := zoo.SameSharing(val, dec2); d != "" {
+			} else if d := zoo.SameSharingNoLists(val, dec2); d != "" {
 				viol("refenc:sharing", fmt.Sprintf("%s; reference rendering %s", d, hexClip(rb)))
 			}
 		}
@@ -285,6 +290,28 @@ func graphCheck(env *Env, res *Result, c Case, sub int, val interface{}, feats [
 func (c04) Run(c Case, env *Env) Result {
 	var res Result
 	switch c.Kind {
+	case "chain":
+		// long doubly linked rings and chains: nesting on the wire grows with the number of nodes
+		lo, hi := subRange(c)
+		for j := lo; j < hi; j++ {
+			n := []int{3, 200, 900, 1500, 3000, 5000}[j%6]
+			nodes := make([]*zoo.Node, n)
+			for i := range nodes {
+				nodes[i] = &zoo.Node{Val: int32(i)}
+			}
+			for i := range nodes {
+				nodes[i].Next = nodes[(i+1)%n]
+				nodes[i].Prev = nodes[(i+n-1)%n]
+			}
+			if j%2 == 1 {
+				nodes[n-1].Next = nil // an open chain
+				nodes[0].Prev = nil
+			}
+			env.J(c.Idx, j)
+			res.NTCount++
+			res.Max("chain_nodes", int64(n))
+			graphCheck(env, &res, c, j*4+2, nodes[0], []string{"long-chain", fmt.Sprintf("nodes=%d", n)}, n)
+		}
 	case "lit":
 		if f, ok := literals[c.S]; ok {
 			val, feats := f()
@@ -360,6 +387,9 @@ func (c04) Run(c Case, env *Env) Result {
 					a, b := nodes[r.Intn(n)], nodes[r.Intn(n)]
 					if len(a.Kids) > 0 {
 						b.Kids = a.Kids
+						if r.Intn(2) == 0 {
+							b.Kids = a.Kids[:len(a.Kids):len(a.Kids)] // the same list through a clipped header
+						}
 						gfeats = append(gfeats, "shared-kids-slice")
 					}
 				}
@@ -429,6 +459,12 @@ func (c04) Run(c Case, env *Env) Result {
 				s.PS = &ps
 				s.P1 = ps
 				feats = append(feats, "ptr-to-slice")
+			case 3:
+				// one list held through two headers that differ only in capacity (s and s[:len(s):len(s)])
+				ps := make([]*zoo.Inner, 2, 8)
+				ps[0], ps[1] = in, &zoo.Inner{A: 7, S: "z"}
+				s.P1, s.P2 = ps, ps[:len(ps):len(ps)]
+				feats = append(feats, "same-list-clipped-capacity")
 			}
 			if r.Intn(3) == 0 {
 				feats = append(feats, "untyped-lists")
